@@ -69,12 +69,20 @@ func (c *Ctx) r191(proxy, hasPerm *ssa.Function) {
 	rule := "R19.1"
 	// wrapper closures: functions passed to reflect.MakeFunc inside PermissionedProxy
 	var wrappers []*ssa.Function
-	for _, fn := range withAnon(proxy) {
-		allInstrs(fn, func(in ssa.Instruction) {
+	for _, fn := range c.region(proxy) {
+		allInstrsRaw(fn, func(in ssa.Instruction) {
 			ci, ok := in.(ssa.CallInstruction)
 			if ok && calleeName(ci) == "reflect.MakeFunc" {
-				if mc, ok := ci.Common().Args[1].(*ssa.MakeClosure); ok {
-					wrappers = append(wrappers, mc.Fn.(*ssa.Function))
+				for _, w := range c.funcsOf(ci.Common().Args[1]) {
+					dup := false
+					for _, x := range wrappers {
+						if x == w {
+							dup = true
+						}
+					}
+					if !dup {
+						wrappers = append(wrappers, w)
+					}
 				}
 			}
 		})
@@ -115,8 +123,7 @@ func (c *Ctx) r191(proxy, hasPerm *ssa.Function) {
 				c.bad(rule, construct, c.ipos(guard), "the context given to HasPerm is not the one passed as the call's first argument")
 			}
 			// arg1: default permissions = PermissionedProxy parameter #1
-			def := c.P.canonVar(stripLoad(args[1]))
-			if len(proxy.Params) < 2 || !c.isParamValue(def, proxy.Params[1]) {
+			if len(proxy.Params) < 2 || !c.isParamOrForwarded(args[1], proxy.Params[1]) {
 				okAll = false
 				c.bad(rule, construct, c.ipos(guard), "the permission set given to HasPerm as defaults is not PermissionedProxy's default-permissions parameter")
 			}
@@ -231,43 +238,27 @@ func (c *Ctx) fromWrapperArg0(v ssa.Value, w *ssa.Function) bool {
 	return false
 }
 
-// fromPermTag: v originates from field.Tag.Get("perm") / Lookup("perm").
+// fromPermTag: on every origin v is the result of field.Tag.Get("perm") / Lookup("perm").
 func (c *Ctx) fromPermTag(v ssa.Value) bool {
-	v = c.P.canonVar(stripLoad(v))
-	// captured local: follow its single store
-	for i := 0; i < 6; i++ {
-		switch x := v.(type) {
-		case *ssa.Alloc:
-			var st *ssa.Store
-			n := 0
-			for _, ref := range *x.Referrers() {
-				if s, ok := ref.(*ssa.Store); ok && s.Addr == x {
-					st = s
-					n++
-				}
-			}
-			if n != 1 {
-				return false
-			}
-			v = st.Val
-		case *ssa.ChangeType:
-			v = x.X
-		case *ssa.Convert:
-			v = x.X
-		case *ssa.Extract:
-			v = x.Tuple
-		case *ssa.Call:
-			n := calleeName(x)
-			if n == "(reflect.StructTag).Get" || n == "(reflect.StructTag).Lookup" {
-				s, ok := constString(x.Common().Args[1])
-				return ok && s == "perm"
-			}
-			return false
-		default:
+	return c.allOrigins(v, func(a apath) bool {
+		if len(a.Fields) != 0 {
 			return false
 		}
-	}
-	return false
+		root := a.Root
+		if ex, ok := root.(*ssa.Extract); ok {
+			root = ex.Tuple
+		}
+		call, ok := root.(*ssa.Call)
+		if !ok {
+			return false
+		}
+		n := calleeName(call)
+		if n != "(reflect.StructTag).Get" && n != "(reflect.StructTag).Lookup" {
+			return false
+		}
+		s, ok := constString(call.Common().Args[1])
+		return ok && s == "perm"
+	})
 }
 
 func (c *Ctx) r192(hasPerm, withPerm *ssa.Function) {
@@ -327,68 +318,120 @@ func (c *Ctx) r192(hasPerm, withPerm *ssa.Function) {
 	// S must be phi(attached [ok true], defaults [ok false])
 	permParam := hasPerm.Params[len(hasPerm.Params)-1]
 	defParam := hasPerm.Params[1]
-	nTrue := 0
-	allInstrs(hasPerm, func(in ssa.Instruction) {
+	grants := c.grantSites(rule, hasPerm, permParam, 0)
+	for _, g := range grants {
+		c.checkSearched(rule, construct, g.searched, val, okv, defParam, g.at)
+	}
+	if len(grants) == 0 {
+		c.bad(rule, "HasPerm: return true", c.P.pos(hasPerm.Pos()), "HasPerm can never grant")
+	}
+}
+
+type grantSite struct {
+	searched ssa.Value // the set (a value of the analysed function) whose element equals the required permission
+	at       ssa.Instruction
+}
+
+// grantSites: the places where fn can return true, each with the set that is searched there.
+// true is returned only under element == perm, or by a membership helper (slices.Contains, or
+// a tree function with the same discipline) applied to perm.
+func (c *Ctx) grantSites(rule string, fn *ssa.Function, perm *ssa.Parameter, depth int) []grantSite {
+	var out []grantSite
+	label := fname(fn) + ": return true"
+	allInstrs(fn, func(in ssa.Instruction) {
 		rt, ok := in.(*ssa.Return)
 		if !ok || len(rt.Results) != 1 {
 			return
 		}
 		res := rt.Results[0]
 		if k, ok := res.(*ssa.Const); ok && k.Value != nil {
-			if k.Value.String() == "true" {
-				nTrue++
-				// need elem == perm true here
-				var searched ssa.Value
-				for _, cf := range expandConds(impliedConds(rt.Block())) {
-					bo, ok := cf.Cond.(*ssa.BinOp)
-					if !ok || bo.Op != token.EQL || !cf.True {
-						continue
-					}
-					var elem ssa.Value
-					if bo.Y == ssa.Value(permParam) {
-						elem = bo.X
-					} else if bo.X == ssa.Value(permParam) {
-						elem = bo.Y
-					} else {
-						continue
-					}
-					if ld, ok := elem.(*ssa.UnOp); ok && ld.Op == token.MUL {
-						if ia, ok := ld.X.(*ssa.IndexAddr); ok {
-							searched = ia.X
-						}
-					}
-				}
-				if searched == nil {
-					c.bad(rule, "HasPerm: return true", c.ipos(rt), "true is returned on a path where no element of the caller's set is known to equal the required permission")
-					return
-				}
-				c.ok(rule, "HasPerm: return true", c.ipos(rt), "only under element == required permission")
-				c.checkSearched(rule, construct, searched, val, okv, defParam, rt)
+			if k.Value.String() != "true" {
+				return
 			}
+			var searched ssa.Value
+			for _, cf := range expandConds(impliedConds(rt.Block())) {
+				bo, ok := cf.Cond.(*ssa.BinOp)
+				if !ok || bo.Op != token.EQL || !cf.True {
+					continue
+				}
+				var elem ssa.Value
+				if bo.Y == ssa.Value(perm) {
+					elem = bo.X
+				} else if bo.X == ssa.Value(perm) {
+					elem = bo.Y
+				} else {
+					continue
+				}
+				if ld, ok := elem.(*ssa.UnOp); ok && ld.Op == token.MUL {
+					if ia, ok := ld.X.(*ssa.IndexAddr); ok {
+						searched = ia.X
+					}
+				}
+			}
+			if searched == nil {
+				c.bad(rule, label, c.ipos(rt), "true is returned on a path where no element of the caller's set is known to equal the required permission")
+				out = append(out, grantSite{nil, rt})
+				return
+			}
+			c.ok(rule, label, c.ipos(rt), "only under element == required permission")
+			out = append(out, grantSite{searched, rt})
 			return
 		}
-		// non-constant return (e.g. slices.Contains(set, perm))
 		if call, ok := res.(*ssa.Call); ok {
 			n := calleeName(call)
 			if n == "slices.Contains" || n == "golang.org/x/exp/slices.Contains" {
-				nTrue++
-				if call.Common().Args[1] != ssa.Value(permParam) {
-					c.bad(rule, "HasPerm: return true", c.ipos(rt), "membership is tested for something other than the required permission")
+				if call.Common().Args[1] != ssa.Value(perm) {
+					c.bad(rule, label, c.ipos(rt), "membership is tested for something other than the required permission")
+					out = append(out, grantSite{nil, rt})
 					return
 				}
-				c.ok(rule, "HasPerm: return true", c.ipos(rt), "slices.Contains(set, required)")
-				c.checkSearched(rule, construct, call.Common().Args[0], val, okv, defParam, rt)
+				c.ok(rule, label, c.ipos(rt), "slices.Contains(set, required)")
+				out = append(out, grantSite{call.Common().Args[0], rt})
+				return
+			}
+			if g := c.P.unbound(staticCallee(call)); g != nil && c.P.allFns[g] && len(g.Blocks) > 0 && depth < 3 {
+				// membership helper: perm must be forwarded; the helper's searched set must be one of its parameters
+				pj := -1
+				for j, a := range call.Common().Args {
+					if a == ssa.Value(perm) && j < len(g.Params) {
+						pj = j
+					}
+				}
+				if pj < 0 {
+					c.bad(rule, label, c.ipos(rt), "membership is tested for something other than the required permission")
+					out = append(out, grantSite{nil, rt})
+					return
+				}
+				for _, gs := range c.grantSites(rule, g, g.Params[pj], depth+1) {
+					if gs.searched == nil {
+						out = append(out, grantSite{nil, rt})
+						continue
+					}
+					mapped := ssa.Value(nil)
+					for j, q := range g.Params {
+						if gs.searched == ssa.Value(q) && j < len(call.Common().Args) {
+							mapped = call.Common().Args[j]
+						}
+					}
+					if mapped == nil {
+						c.bad(rule, label, c.ipos(gs.at), "the membership helper searches a set that is not the one it was given")
+						out = append(out, grantSite{nil, rt})
+						continue
+					}
+					out = append(out, grantSite{mapped, rt})
+				}
 				return
 			}
 		}
-		c.und(rule, "HasPerm: return", c.ipos(rt), "unrecognised return expression")
+		c.und(rule, fname(fn)+": return", c.ipos(rt), "unrecognised return expression")
 	})
-	if nTrue == 0 {
-		c.bad(rule, "HasPerm: return true", c.P.pos(hasPerm.Pos()), "HasPerm can never grant")
-	}
+	return out
 }
 
 func (c *Ctx) checkSearched(rule, construct string, searched, attached, okv ssa.Value, defParam *ssa.Parameter, at ssa.Instruction) {
+	if searched == nil {
+		return // already reported
+	}
 	phi, ok := searched.(*ssa.Phi)
 	if !ok {
 		c.bad(rule, construct, c.ipos(at), "the searched set is not 'attached set if present, else defaults'")
@@ -448,14 +491,20 @@ func (c *Ctx) r193(withPerm *ssa.Function) {
 		if !ok || call.Common().IsInvoke() {
 			return nil, false
 		}
-		if _, ok := loadsField(call.Common().Value, f); ok {
+		if _, ok := loadsField(call.Common().Value, f); ok || c.fieldVal(call.Common().Value, f) {
 			return call, true
 		}
 		return nil, false
 	}
 	var nextCalls, verifyCalls []*ssa.Call
 	var h401 []ssa.Instruction
-	allInstrs(serve, func(in ssa.Instruction) {
+	reg := c.region(serve)
+	regInstrs := func(f func(ssa.Instruction)) {
+		for _, g := range reg {
+			allInstrsRaw(g, f)
+		}
+	}
+	regInstrs(func(in ssa.Instruction) {
 		if call, ok := isCallOfField(in, fNext); ok {
 			nextCalls = append(nextCalls, call)
 		}
@@ -487,7 +536,7 @@ func (c *Ctx) r193(withPerm *ssa.Function) {
 	// 401 => Next unreachable
 	for _, h := range h401 {
 		construct := "(*Handler).ServeHTTP: 401 path"
-		if w := reachFrom(h, isNext, nil); w != nil {
+		if w := reachFromUp(h, isNext, nil); w != nil {
 			c.bad(rule, construct, c.ipos(w), "the next handler is invoked after a 401 was written")
 		} else {
 			c.ok(rule, construct, c.ipos(h), "Next unreachable after 401")
@@ -526,9 +575,9 @@ func (c *Ctx) r193(withPerm *ssa.Function) {
 				}
 				return false
 			}
-			if w := reachFromBlock(errBranch, isNext, nil); w != nil {
+			if w := reachFromBlockUp(errBranch, isNext, nil); w != nil {
 				c.bad(rule, construct, c.ipos(w), "a rejected token still reaches the next handler")
-			} else if ret := reachFromBlock(errBranch, isReturn, is401); ret != nil {
+			} else if ret := reachFromBlockUp(errBranch, isReturn, is401); ret != nil {
 				c.bad(rule, construct, c.ipos(ret), "a rejected token is not answered with 401")
 			} else {
 				c.ok(rule, construct, c.ipos(verify), "error branch writes 401 and returns")
@@ -539,7 +588,7 @@ func (c *Ctx) r193(withPerm *ssa.Function) {
 	{
 		construct := "(*Handler).ServeHTTP: missing Bearer prefix"
 		found := false
-		allInstrs(serve, func(in ssa.Instruction) {
+		regInstrs(func(in ssa.Instruction) {
 			iff, ok := in.(*ssa.If)
 			if !ok {
 				return
@@ -561,11 +610,11 @@ func (c *Ctx) r193(withPerm *ssa.Function) {
 				}
 				return false
 			}
-			if w := reachFromBlock(bad, isNext, nil); w != nil {
+			if w := reachFromBlockUp(bad, isNext, nil); w != nil {
 				c.bad(rule, construct, c.ipos(w), "a token without the Bearer prefix reaches the next handler")
-			} else if w := reachFromBlock(bad, func(x ssa.Instruction) bool { return x == ssa.Instruction(verify) }, nil); w != nil {
+			} else if w := reachFromBlockUp(bad, func(x ssa.Instruction) bool { return x == ssa.Instruction(verify) }, nil); w != nil {
 				c.bad(rule, construct, c.ipos(w), "a token without the Bearer prefix is handed to the verifier")
-			} else if ret := reachFromBlock(bad, isReturn, is401); ret != nil {
+			} else if ret := reachFromBlockUp(bad, isReturn, is401); ret != nil {
 				c.bad(rule, construct, c.ipos(ret), "a malformed token is not answered with 401")
 			} else {
 				c.ok(rule, construct, c.ipos(iff), "writes 401 and returns")
@@ -576,13 +625,84 @@ func (c *Ctx) r193(withPerm *ssa.Function) {
 		}
 	}
 	// the context handed to Next
-	ctx0 := (ssa.Value)(nil)
-	allInstrs(serve, func(in ssa.Instruction) {
-		if ci, ok := in.(*ssa.Call); ok && calleeName(ci) == "(*net/http.Request).Context" && ctx0 == nil {
-			ctx0 = ci
+	var ctx0s []ssa.Value
+	regInstrs(func(in ssa.Instruction) {
+		if ci, ok := in.(*ssa.Call); ok && calleeName(ci) == "(*net/http.Request).Context" {
+			ctx0s = append(ctx0s, ci)
 		}
 	})
+	isCtx0 := func(v ssa.Value) bool {
+		for _, x := range ctx0s {
+			if x == v {
+				return true
+			}
+		}
+		return false
+	}
+	// ctxSource: one way the context value handed to Next can have been produced, with the
+	// place (phi edge or return of a helper) at which that alternative was chosen
+	type ctxSource struct {
+		val  ssa.Value
+		pred *ssa.BasicBlock // phi edge taken
+		ret  *ssa.Return     // helper return taken
+	}
+	var sources func(v ssa.Value, pred *ssa.BasicBlock, ret *ssa.Return, depth int, out *[]ctxSource)
+	sources = func(v ssa.Value, pred *ssa.BasicBlock, ret *ssa.Return, depth int, out *[]ctxSource) {
+		if depth > 8 {
+			*out = append(*out, ctxSource{v, pred, ret})
+			return
+		}
+		switch x := v.(type) {
+		case *ssa.Phi:
+			for i, e := range x.Edges {
+				sources(e, x.Block().Preds[i], ret, depth+1, out)
+			}
+			return
+		case *ssa.UnOp:
+			if x.Op == token.MUL {
+				if al, ok := x.X.(*ssa.Alloc); ok {
+					if sts := reachingStores(al, x); len(sts) > 0 {
+						for _, st := range sts {
+							sources(st.Val, st.Block(), ret, depth+1, out)
+						}
+						return
+					}
+				}
+			}
+		case *ssa.Extract:
+			if call, ok := x.Tuple.(*ssa.Call); ok {
+				if g := p.unbound(staticCallee(call)); g != nil && p.allFns[g] && len(g.Blocks) > 0 && g != withPerm {
+					allInstrsRaw(g, func(in ssa.Instruction) {
+						if rt, ok := in.(*ssa.Return); ok && x.Index < len(rt.Results) {
+							sources(blockLocalValue(rt.Results[x.Index]), nil, rt, depth+1, out)
+						}
+					})
+					return
+				}
+			}
+		case *ssa.Call:
+			if g := p.unbound(staticCallee(x)); g != nil && p.allFns[g] && len(g.Blocks) > 0 && g != withPerm {
+				allInstrsRaw(g, func(in ssa.Instruction) {
+					if rt, ok := in.(*ssa.Return); ok && len(rt.Results) == 1 {
+						sources(blockLocalValue(rt.Results[0]), nil, rt, depth+1, out)
+					}
+				})
+				return
+			}
+		}
+		*out = append(*out, ctxSource{v, pred, ret})
+	}
+	afterVerify := func(src ctxSource) bool {
+		if src.ret != nil {
+			return reachFromUp(verify, func(x ssa.Instruction) bool { return x == ssa.Instruction(src.ret) }, nil) != nil || src.ret.Block() == verify.Block() && instrIndex(src.ret) > instrIndex(verify)
+		}
+		if src.pred != nil {
+			return reachesBlock(verify, src.pred)
+		}
+		return false
+	}
 	for _, nc := range nextCalls {
+		nc := nc
 		construct := "(*Handler).ServeHTTP: context handed to Next"
 		if len(nc.Common().Args) != 2 {
 			c.und(rule, construct, c.ipos(nc), "unexpected Next call shape")
@@ -592,43 +712,47 @@ func (c *Ctx) r193(withPerm *ssa.Function) {
 		wc, ok := req.(*ssa.Call)
 		if !ok || calleeName(wc) != "(*net/http.Request).WithContext" {
 			// plain r: allowed only if no verification happened on this path => must not be reachable from verify
-			if reachFrom(verify, func(x ssa.Instruction) bool { return x == ssa.Instruction(nc) }, nil) != nil {
+			if reachFromUp(verify, func(x ssa.Instruction) bool { return x == ssa.Instruction(nc) }, nil) != nil {
 				c.bad(rule, construct, c.ipos(nc), "after verification the request is passed on without the permissions attached")
 			} else {
 				c.ok(rule, construct, c.ipos(nc), "token-less path passes the request unchanged")
 			}
 			continue
 		}
-		cv := wc.Common().Args[1]
-		edges := []ssa.Value{cv}
-		var preds []*ssa.BasicBlock
-		if phi, ok := cv.(*ssa.Phi); ok {
-			edges = phi.Edges
-			preds = phi.Block().Preds
-		}
+		var srcs []ctxSource
+		sources(wc.Common().Args[1], nil, nil, 0, &srcs)
 		okAll := true
 		sawVerified := false
-		for i, e := range edges {
+		for _, src := range srcs {
+			e := src.val
 			switch {
-			case e == ctx0:
-				// original context: this edge must not come after a successful verification
-				if preds != nil && reachesBlock(verify, preds[i]) {
+			case isCtx0(e):
+				// original context: this alternative must not be chosen after a successful verification
+				if afterVerify(src) {
 					okAll = false
 					c.bad(rule, construct, c.ipos(nc), "a verified request is passed on with the original context (permissions not attached)")
 				}
+			case isNilConst(e) && src.ret != nil:
+				// a helper's "no context" result: acceptable only if Next is not reached with it
+				s2 := newIPSearch(func(x ssa.Instruction) bool { return x == ssa.Instruction(nc) }, nil)
+				s2.up = true
+				if s2.scan(src.ret.Block(), instrIndex(src.ret), nil) {
+					okAll = false
+					c.bad(rule, construct, c.ipos(src.ret), "the next handler can be reached with no context at all")
+				}
 			default:
 				call, ok := e.(*ssa.Call)
-				if !ok || staticCallee(call) != withPerm {
+				if !ok || p.unbound(staticCallee(call)) != withPerm {
 					okAll = false
 					c.bad(rule, construct, c.ipos(nc), "the context handed on is neither the request's own nor WithPerm(...)")
 					continue
 				}
 				sawVerified = true
-				if call.Common().Args[1] != allow {
+				if !c.allOrigins(call.Common().Args[1], func(a apath) bool { return a.Root == allow && len(a.Fields) == 0 }) {
 					okAll = false
 					c.bad(rule, construct, c.ipos(call), "the attached permissions are not exactly what the verifier returned")
 				}
-				if call.Common().Args[0] != ctx0 {
+				if !c.allOrigins(call.Common().Args[0], func(a apath) bool { return isCtx0(a.Root) && len(a.Fields) == 0 }) {
 					okAll = false
 					c.bad(rule, construct, c.ipos(call), "permissions are attached to a context other than the request's")
 				}
@@ -650,7 +774,7 @@ func (c *Ctx) r193(withPerm *ssa.Function) {
 	{
 		construct := "(*Handler).ServeHTTP: token sources"
 		hdr, form := false, false
-		allInstrs(serve, func(in ssa.Instruction) {
+		regInstrs(func(in ssa.Instruction) {
 			ci, ok := in.(*ssa.Call)
 			if !ok {
 				return
